@@ -379,6 +379,7 @@ class DesignSpace:
                     indices.stop - n_removed,
                 )
 
+        self._add_norm_policy(name)
         self.__update_current_metadata()
         return self
 
